@@ -309,13 +309,13 @@ func ruleFailCall(c *Ctx, r6 string) {
 	fc := dlr + "syncFailCall"
 	c.OnlyCalledFrom(r6, "syncFailCall", `^router\.\(\*dealer\)\.syncFailCall$`, `^router\.\(\*dealer\)\.syncYield$`, 2)
 	c.Fields(r6, fc, "ERROR for the failed call", "wamp.Error", nil, map[string]string{"Type": `^48$`, "Request": `^%invk\.callID\.request$`}, 1)
-	fcSend := dTrySendTo + `%caller, new\(wamp\.Error\)\)$`
+	fcSend := dTrySendTo + `(%caller|%d\.calls\[%invk\.callID\](,ok#0)?), new\(wamp\.Error\)\)$` // the stored caller: passed in, or looked up under the call
 	for _, del := range []string{`^call:builtin:delete\(%d\.invocations, %invkReqID\)$`, `^call:builtin:delete\(%d\.invocationByCall, %invk\.callID\)$`, `^call:builtin:delete\(%d\.calls, %invk\.callID\)$`} {
 		c.Reach(r6, fc, "failed call forgotten before the caller is answered: "+del, ReachSpec{Stop: del, Target: fcSend, Want: false})
 	}
 	c.Reach(r6, fc, "failed call's timer stopped", ReachSpec{Stop: `^call:dyn:%invk\.timerCancel\(\)$`, Cut: []ir.Clause{clause("no timer", T(`^\(%invk\.timerCancel == nil\)$`))}, Target: fcSend, Want: false})
 	c.Has(r6, sy, "the call failed is the one of this invocation, answered to its stored caller",
-		`^call:router\.\(\*dealer\)\.syncFailCall\(%d, %d\.invocations\[`+dInvkKey+`\],ok#0, `+dInvkKey+`, %d\.calls\[%d\.invocations\[`+dInvkKey+`\],ok#0\.callID\],ok#0, `, 2)
+		`^call:router\.\(\*dealer\)\.syncFailCall\(%d, %d\.invocations\[`+dInvkKey+`\],ok#0, `+dInvkKey+`, (%d\.calls\[%d\.invocations\[`+dInvkKey+`\],ok#0\.callID\],ok#0, )?`, 2)
 	// no other message reaches the caller from syncYield: every direct send to the stored caller is the RESULT
 	c.HasNot(r6, sy, "no ERROR is sent to the caller directly from syncYield", dTrySendTo+`%d\.calls\[.*\],ok#0, new\(wamp\.Error\)\)$`)
 }
